@@ -26,9 +26,10 @@ def main():
         open(path, 'w').write(text)
         env = dict(os.environ, VERIF_REPO_SRC=src, PYTHONPATH=src)
         if suite:
-            r = subprocess.run(['/venv/bin/python', '-m', 'pytest', '-q', '-x', '-p', 'no:cacheprovider', os.path.join(src, 'tests')],
+            r = subprocess.run(['/venv/bin/python', '-m', 'pytest', '-q', '-p', 'no:cacheprovider', os.path.join(src, 'tests')],
                                cwd=tmp, env=env, capture_output=True, text=True)
-            print('suite:', r.stdout.strip().splitlines()[-1] if r.stdout.strip() else r.stderr[-300:])
+            last = r.stdout.strip().splitlines()[-1] if r.stdout.strip() else r.stderr[-300:]
+            print('suite:', last, '(baseline: 8 failed, 410 passed)')
         for c in checks:
             r = subprocess.run(['/verif/vrun', c], env=env, capture_output=True, text=True)
             lines = [l for l in r.stdout.splitlines() if 'violated' in l or 'HARNESS' in l]
